@@ -144,7 +144,7 @@ def run(ctx):
     n_eval, nontrivial = 0, set()
     samples = []
     progs = 0
-    while progs < ctx.n(22, 400):
+    while progs < ctx.n(50, 400):
         fam = rng.choice(["dag", "gated", "loop", "nested", "emit"])
         try:
             if fam == "nested":
